@@ -118,7 +118,7 @@ def run_case(case):
     from vlib import sbmlref
     C = Counter()
     tc = Counter()
-    viol = []
+    viol = util.ViolList()
     sp = case["spec"]
     M = specmod.build_model(sp, "ctor")
     tmp = tempfile.mkdtemp(prefix="c14-", dir="/var/tmp")
